@@ -153,9 +153,10 @@ func checkValue(c *core.Ctx, idx int64, v cty.Value, r *core.Rand) {
 	canonical := canonicalSets(v)
 	withSet := hasSet(v)
 	marked := len(mon.DeepMarks(v)) > 0
-	c.Distinct("value "+w, len(model) >= 2)
+	c.Distinct("value "+stableText(v, model), len(model) >= 2)
 	c.Count("values")
 	c.CountN("members", int64(len(model)))
+	countMembers(c, model)
 	if withSet {
 		c.Count("class:has-set")
 	}
@@ -306,6 +307,51 @@ func checkValue(c *core.Ctx, idx int64, v cty.Value, r *core.Rand) {
 		}
 		c.Sample(map[string]any{"value": w, "walk_paths": paths, "members": len(model)})
 	}
+}
+
+// stableText is a printable form of v that does not depend on map iteration
+// order (the %#v form of a mark set does): the unmarked value plus the marks of
+// every member in model order. Used only for distinct counting.
+func stableText(v cty.Value, model []member) string {
+	s := wit(mon.StripMarks(v))
+	for i := range model {
+		if _, own := model[i].val.Unmark(); len(own) > 0 {
+			s += "|" + model[i].canon + marksText(own)
+		}
+	}
+	return s
+}
+
+// countMembers records what kinds of members the traversals were shown.
+func countMembers(c *core.Ctx, model []member) {
+	depth := 0
+	for i := range model {
+		m := &model[i]
+		if len(m.steps) > depth {
+			depth = len(m.steps)
+		}
+		c.Count("member-in:" + m.inKind)
+		c.Count("member-kind:" + kindOf(m.val.Type()) + "," + stateOf(m.val))
+		if m.val.IsMarked() {
+			c.Count("member:marked")
+			if len(m.anc) > 0 {
+				c.Count("member:marked-under-marked-ancestor")
+			}
+			if u, _ := m.val.Unmark(); !u.IsKnown() || u.IsNull() {
+				c.Count("member:marked-null-or-unknown")
+			} else if len(children(u)) == 0 && kindOf(u.Type()) != "primitive" {
+				c.Count("member:marked-empty-container")
+			} else if len(children(u)) > 0 {
+				c.Count("member:marked-nonempty-container")
+			}
+		} else if len(m.anc) > 0 {
+			c.Count("member:unmarked-under-marked-ancestor")
+		}
+		if m.underSet {
+			c.Count("member:under-set")
+		}
+	}
+	c.Count(fmt.Sprintf("value-depth:%d", depth))
 }
 
 // marksBelowDiff compares the marks strictly below the top level.
